@@ -438,8 +438,8 @@ class Interp:
                         return const(bool(r))
                 except TypeError:
                     pass
-            if p[1] in ("Is", "IsNot") and ((is_const(p[3], None) and p[2][0] in ("ref", "tuple", "drawn", "fstr"))
-                                            or (is_const(p[2], None) and p[3][0] in ("ref", "tuple", "drawn", "fstr"))):
+            nn = ("ref", "tuple", "drawn", "fstr", "bound", "func", "class", "lambda")
+            if p[1] in ("Is", "IsNot") and ((is_const(p[3], None) and p[2][0] in nn) or (is_const(p[2], None) and p[3][0] in nn)):
                 return const(p[1] == "IsNot")
             if p[1] in ("In", "NotIn") and is_const(p[2]):
                 o = self.obj(p[3])
@@ -694,6 +694,11 @@ class Interp:
                 if name in ("pop", "popleft", "popitem", "setdefault"):
                     return ("call", "." + name, (recv,) + tuple(args), ())
                 return NONE
+            if name == "get" and isinstance(o, HDict) and args and is_const(args[0]) and all(e[0] != "**" and is_const(e[0]) for e in o.entries):
+                for e in reversed(o.entries):
+                    if e[0] == args[0]:
+                        return e[1]
+                return args[1] if len(args) > 1 else NONE
             if name == "copy" and not args:
                 return self.new_list([("s", recv)], n) if not isinstance(o, HDict) else self.new_dict([("**", recv)], n, tree)
             if name == "format":
@@ -1244,7 +1249,7 @@ class Interp:
     st_ClassDef = st_FunctionDef
 
     # -- entry --------------------------------------------------------------------------
-    def run(self, qualname: str, args: dict | None = None):
+    def run(self, qualname: str, args: dict | None = None, ext: dict | None = None):
         """Analyse function ``qualname`` with symbolic parameters.  Returns (tree, return term, state)."""
         fi = self.facts.func(qualname)
         st = State()
@@ -1263,6 +1268,8 @@ class Interp:
         if args:
             for k, v in args.items():
                 st.env[k] = v
+        if ext:
+            st.ext.update(ext)
         act = Activation(fi, 0)
         self.stack.append(act)
         try:
